@@ -2,7 +2,7 @@
   The analysis of the case family (`case_utils.check_for_case_violation`), for every value and every
   parameter setting, under the table hypotheses `CharWise`:
     * `check_sound`      the expected value equals the value after folding (same length, same literal-ness)
-    * `check_index`      the recorded index is the token index (no duplicate-by-case `case_exceptions`)
+    * `check_index`      the recorded index is the token index (unconditional since the repo repair of check_for_exception)
     * `check_second`     analysing the expected value again asks for nothing new (idempotence)
 -/
 import VsgProofs.Lemmas.BaseCaseStr
@@ -396,9 +396,9 @@ theorem findIdx?_of_mem {α : Type} (q : α → Bool) (l : List α) (x : α) (hx
 
 /-- the whole-word exception path: the value written is an entry of `case_exceptions` that equals
     the value after `lower()` -/
-theorem checkForException_sound {p : Params} {v : Str} {a : Action}
-    (h : checkForException E p v = .ok (some a)) :
-    ∃ e, a.value = some e ∧ E.lowerS e = E.lowerS v ∧ e ∈ p.exceptions := by
+theorem checkForException_sound {p : Params} {v : Str} {idx : Int} {a : Action}
+    (h : checkForException E p v idx = .ok (some a)) :
+    ∃ e, a.value = some e ∧ E.lowerS e = E.lowerS v ∧ e ∈ p.exceptions ∧ a.index = idx := by
   unfold checkForException at h
   cases hi : (p.exceptions.map E.lowerS).findIdx? (· == E.lowerS v) with
   | none => simp [hi] at h
@@ -415,12 +415,12 @@ theorem checkForException_sound {p : Params} {v : Str} {a : Action}
       by_cases hne : (v != e) = true
       · simp only [hne, if_true, Except.ok.injEq, Option.some.injEq] at h
         subst h
-        exact ⟨e, rfl, by simpa using hqx, List.mem_of_getElem? he⟩
+        exact ⟨e, rfl, by simpa using hqx, List.mem_of_getElem? he, rfl⟩
       · simp [hne] at h
 
 /-- with no duplicate-by-case entries the whole-word exception path never reports anything -/
-theorem checkForException_mem {p : Params} {v : Str} (hnd : NoCaseDup E p.exceptions)
-    (hv : v ∈ p.exceptions) : checkForException E p v = .ok none := by
+theorem checkForException_mem {p : Params} {v : Str} {idx : Int} (hnd : NoCaseDup E p.exceptions)
+    (hv : v ∈ p.exceptions) : checkForException E p v idx = .ok none := by
   unfold checkForException
   have hm : E.lowerS v ∈ p.exceptions.map E.lowerS := List.mem_map_of_mem hv
   obtain ⟨i, hi⟩ := findIdx?_of_mem (· == E.lowerS v) _ _ hm (by simp)
@@ -445,7 +445,7 @@ theorem check_skip {p : Params} {cp cs : Bool} {v : Str} {idx : Int}
 theorem check_exc {p : Params} {cp cs : Bool} {v : Str} {idx : Int}
     (hs : (p.name != bitStringLiteral && doesNotContainAnyAlpha v) = false)
     (hx : p.exceptions.contains v = true) :
-    checkForCaseViolation E p cp cs v idx = checkForException E p v := by
+    checkForCaseViolation E p cp cs v idx = checkForException E p v idx := by
   unfold checkForCaseViolation
   rw [if_neg (by simp [hs]), if_pos hx]
 
@@ -546,13 +546,15 @@ theorem check_sound (T : CharWise E fold lc uc fc) {p : Params} {cp cs : Bool} {
       · rw [he] at hv; cases hv
         exact hle
 
-/-- the recorded index is the token index — when `case_exceptions` has no duplicate-by-case entries -/
+/-- the recorded index is the token index — for every exception list (since the repair of
+    `check_for_exception`; before it the hypothesis "no duplicate-by-case `case_exceptions`" was needed) -/
 theorem check_index (T : CharWise E fold lc uc fc) {p : Params} {cp cs : Bool} {v : Str} {idx : Int}
-    {a : Action} (hnd : NoCaseDup E p.exceptions)
+    {a : Action}
     (h : checkForCaseViolation E p cp cs v idx = .ok (some a)) : a.index = idx := by
   by_cases hx : p.exceptions.contains v = true
-  · rw [check_exc (check_not_skipped h) hx, checkForException_mem hnd (by simpa using hx)] at h
-    cases h
+  · rw [check_exc (check_not_skipped h) hx] at h
+    obtain ⟨_, _, _, _, hi⟩ := checkForException_sound h
+    exact hi
   · have hx' : p.exceptions.contains v = false := by simpa using hx
     rcases check_style_path hx' h with ⟨h0, _⟩ | ⟨f, pre, w, suf, hl, hd, ho⟩
     · cases h0
